@@ -98,6 +98,7 @@ int main(int argc, char **argv) {
 	if (pid == 0) { int r = calendar_switch_child(); fflush(stdout); _exit(r ? 3 : 0); }
 	waitpid(pid, &st, 0);
 	if (WIFSIGNALED(st)) RP_FAIL("calendar chain with an algorithm switch the hasher cannot open crashes the process (signal %d: hasher freed twice)", WTERMSIG(st));
+	if (WIFEXITED(st) && WEXITSTATUS(st) == 1) RP_FAIL("calendar chain with an algorithm switch the hasher cannot open: memory error reported by the sanitizer (hasher freed twice)");
 	if (WIFEXITED(st) && WEXITSTATUS(st) == 3) RP_FAIL("calendar chain with unsupported algorithm accepted");
 	printf("calendar hasher life-cycle: no crash\n");
 	return 0;
